@@ -6,10 +6,12 @@ P=$1; NAME=$2; WT=$3; OUT=$4; PKG=$5
 D=/verif/seeded/$NAME; mkdir -p $D
 cp $OUT/patch.diff $D/patch.diff; cp $OUT/demo_test.go $D/demo_test.go; cp $OUT/meta.json $D/agent_meta.json
 T=$(grep -o "func Test[A-Za-z0-9_]*" $OUT/demo_test.go | head -1 | sed 's/func //')
-SUITE=$(grep -o "func (s[a-z]* \*[A-Za-z]*) Test[A-Za-z0-9_]*" $OUT/demo_test.go | head -1)
+if [ -z "$T" ]; then # testify suite method: run it under every suite runner of the package
+  T="/^$(grep -o "func ([a-zA-Z]* \*[A-Za-z]*) Test[A-Za-z0-9_]*" $OUT/demo_test.go | head -1 | grep -o "Test[A-Za-z0-9_]*$")\$"
+fi
 cd $WT
 (go test -vet=off -count=1 -run "$T" ./$PKG > /tmp/seed_with.log 2>&1); W=$?
-git stash -q; (go test -vet=off -count=1 -run "$T" ./$PKG > /tmp/seed_without.log 2>&1); WO=$?; git stash pop -q
+git apply -R $OUT/patch.diff; (go test -vet=off -count=1 -run "$T" ./$PKG > /tmp/seed_without.log 2>&1); WO=$?; git apply $OUT/patch.diff
 cd /verif
 git -C /repo apply $D/patch.diff || { echo "$NAME: APPLY FAILED"; exit 1; }
 ./check $P quick > /tmp/seed_check.log 2>&1; RC=$?
